@@ -247,6 +247,16 @@ def _work_hyp(sc, task, stats, out):
         t()
     except Violation:
         out["violation"] = {"case": last["case"], **last["v"].payload()}
+    except BaseException as e:  # noqa: BLE001
+        # A violation that Hypothesis could not reproduce when it re-ran the case in the same process (the library changed
+        # process-wide state the first time only) is still a violation of the recorded case: report it, marked as such.
+        from hypothesis.errors import Flaky
+        if isinstance(e, Flaky) and "v" in last:
+            pay = last["v"].payload()
+            pay["detail"] = dict(pay["detail"], note="not reproducible within the same process: the first evaluation changed process-wide state")
+            out["violation"] = {"case": last["case"], **pay}
+        else:
+            raise
 
 
 def _work_enum(sc, task, stats, out):
